@@ -121,4 +121,57 @@ def decodeRestart (per : List Bool) (mult : Nat) : List (Tok α) → Option (Gri
           | some (nx, t4) => decodeRaw { nx := nx, lo := lo, w := w, per := per, mult := mult, data := [] } t4
   | _ => none
 
+/-! ### gradient grids linked to a count grid (`colvar_grid_gradient::value_output / value_input`)
+
+  A gradient grid stores, per grid point and per variable, the *sum* of the samples; its count grid stores the number of
+  samples of the point.  Multicolumn files carry the *average* (`value_output`: sum / count, 0 where the count is 0) and
+  reading multiplies by the count again (`value_input`: plain read uses the count grid's value, which is read first; a read
+  with `add = true` — the `inputPrefix` path of ABF — adds `value × newly read count` to what the grid holds and adds the
+  counts).  Raw and restart forms go through the same `value_output` / `value_input` pair, so they carry averages too.
+  Count files themselves are integer files and are taken as read back exactly. -/
+
+def pointCount (mult : Nat) (cnt : List Nat) (a : Nat) : Nat := cnt.getD (a / mult) 0
+
+def gradOut (mult : Nat) (data : List α) (cnt : List Nat) : List α :=
+  data.zipIdx.map fun (da : α × Nat) =>
+    if pointCount mult cnt da.2 > 0 then da.1 / ((pointCount mult cnt da.2 : Nat) : α) else 0.0
+
+def gradIn (mult : Nat) (vals : List α) (cnt : List Nat) : List α :=
+  vals.zipIdx.map fun (va : α × Nat) => va.1 * ((pointCount mult cnt va.2 : Nat) : α)
+
+def gradInAdd (mult : Nat) (old vals : List α) (newCnt : List Nat) : List α :=
+  List.zipWith (· + ·) old (gradIn mult vals newCnt)
+
+def countInAdd (old new : List Nat) : List Nat := List.zipWith (· + ·) old new
+
+/-- write a gradient grid (and its count grid, when there is one) as multicolumn files and read them into grids that hold
+    `old` / `oldCnt` (`add = true`) or nothing (`add = false`); returns the data and the counts of the reading grids -/
+def gradMulticolRoundTrip (g : GridFile α) (cnt : Option (List Nat)) (add : Bool) : Option (List α × List Nat) :=
+  let out : List α := match cnt with
+    | some c => gradOut g.mult g.data c
+    | none => g.data
+  match decodeMulticol g.mult (encodeMulticol { g with data := out }) with
+  | none => none
+  | some b =>
+    match cnt with
+    | some c =>
+      if add then some (gradInAdd g.mult g.data b.data c, countInAdd c c)
+      else some (gradIn g.mult b.data c, c)
+    | none =>
+      if add then some (List.zipWith (· + ·) g.data b.data, []) else some (b.data, [])
+
+/-- the same through the raw form (`restart = true`: preceded by the parameter block) -/
+def gradRawRoundTrip (g : GridFile α) (cnt : Option (List Nat)) (restart : Bool) : Option (List α × List Nat) :=
+  let out : List α := match cnt with
+    | some c => gradOut g.mult g.data c
+    | none => g.data
+  let back := if restart then decodeRestart (g.per.map fun _ => false) g.mult (encodeRestart { g with data := out })
+              else decodeRaw { g with data := [] } (encodeRaw { g with data := out })
+  match back with
+  | none => none
+  | some b =>
+    match cnt with
+    | some c => some (gradIn g.mult b.data c, c)
+    | none => some (b.data, [])
+
 end Cv.GridIO
